@@ -8,7 +8,8 @@
 //	    point: idle head reqmod rt resmod write   progress point at which the connection is parked when Close is called
 //	           headc                              like head, but the half head arrives in the SAME write as a complete request that
 //	                                              is served keep-alive first (the bytes sit in the proxy's bufio.Reader)
-//	           late                               connection dialled (with a full request) after closing became visible
+//	           late lateb latec lated             connection dialled (with a full request) after closing became visible, on the
+//	                                              first / second / third / fourth listener served by the same proxy
 //	           unreg                              Serve is held between l.Accept() and `go handleLoop` (first conn.RemoteAddr()
 //	                                              call blocks) until Close has returned (divergence D36)
 //	    warmups: number of complete exchanges done on that connection before it is driven to its point;
@@ -30,13 +31,16 @@
 //	               n o e  the kind of client of the parked exchange: n HTTP/1.1 with `Connection: close`, o HTTP/1.0
 //	                 (closes by default), e HTTP/1.0 with `Connection: keep-alive` (default: HTTP/1.1 keep-alive).
 //	                 n and o only where shutdown precedes the close decision (reqmod, rt, resmod)
+//	               t d m  the parked exchange is a CONNECT: t blind tunnel to an echo server, d the same through a
+//	                 downstream proxy (SetDownstreamProxy), m with MITM configured (the client leaves after the 200);
+//	                 point rt = the dial of the tunnel target; x = that dial fails (502)
 //	               g (write only) the client goes away instead of reading the response
 //	    async    (token) release all parked exchanges at once instead of one after the other
 //	    R: order in which the parked exchanges are released after Close was called
 //	    sc:<ms>  (token) every conn.Close() done by the proxy takes <ms> (X is recorded when it completed)
 //	W sd:<seed> ms:<budget> nl:<listeners>         child process: rounds of Close racing accepts on in-memory listeners
 //	                                               (OUT: | NOPANIC, or | PANIC:<message>)
-//	S n:<k> sd:<seed> [slow] [sc:<ms>] [org]       unforced stress (org: every request goes to a real origin through the transport): k clients racing Accept/serve against Close
+//	S n:<k> sd:<seed> [slow] [sc:<ms>] [org] [ls:<listeners>]   unforced stress (org: every request goes to a real origin through the transport): k clients racing Accept/serve against Close
 //
 // OUT tokens: the trace, then "|", then one K<id>=<responses>:<end> per
 // accepted connection (responses: m marked complete, u unmarked complete,
@@ -49,6 +53,7 @@
 // except CC/CV/CR which the harness records around its call of Close):
 //
 //	A<c> Accept returned   h<c> client sent half a request head (only when the connection is known to be idle)
+//	E<c> resmod returning for a CONNECT exchange
 //	q<c> reqmod entered    t<c> round trip entered   s<c> resmod entered   e<c> resmod returning
 //	T<c>+ / T<c>-  the round trip returns a response / an error     P<c>+ / P<c>-  the head about to be written is / is not a 502
 //	T<c>? the round trip towards a real, reachable origin failed (the client gets a proxy-made 502 instead of its answer)
@@ -70,6 +75,7 @@ import (
 	"io"
 	"net"
 	"net/http"
+	"net/url"
 	"os"
 	"runtime"
 	"sort"
@@ -81,6 +87,7 @@ import (
 
 	martian "github.com/google/martian/v3"
 	mlog "github.com/google/martian/v3/log"
+	"github.com/google/martian/v3/mitm"
 	"verifharness/hx"
 )
 
@@ -94,6 +101,8 @@ type connRec struct {
 	out      string // outcomes of the steps of exchange parkAt (see IN tokens)
 	cur      int    // index of the exchange being handled
 	failed   int32  // a write error was recorded
+	isConn   int32  // the exchange being handled is a CONNECT
+	raw      int32  // the CONNECT response went out: what follows on the socket is not HTTP
 	park     string // point at which this connection parks
 	parkAt   int    // exchange index that parks
 	nReq     int    // exchanges that entered reqmod
@@ -117,6 +126,7 @@ type run struct {
 	nextPark   string
 	nextParkAt int
 	nextOut    string
+	dialMap    map[string]*connRec // tunnel target (or downstream proxy) address -> the connection whose CONNECT dials it
 	nextUnreg  bool
 	unregGate  chan struct{}
 	closeDelay time.Duration // every conn.Close() of the proxy takes this long
@@ -126,7 +136,7 @@ type run struct {
 }
 
 func newRun() *run {
-	return &run{byAddr: map[string]*connRec{}, accepted: make(chan struct{}, 1024), unregGate: make(chan struct{})}
+	return &run{dialMap: map[string]*connRec{}, byAddr: map[string]*connRec{}, accepted: make(chan struct{}, 1024), unregGate: make(chan struct{})}
 }
 
 func (h *run) add(tok string) {
@@ -233,7 +243,18 @@ func (c *recConn) RemoteAddr() net.Addr {
 	return c.Conn.RemoteAddr()
 }
 
+// CloseWrite lets the proxy half-close the client connection (end of a tunnel direction).
+func (c *recConn) CloseWrite() error {
+	if tc, ok := c.Conn.(*net.TCPConn); ok {
+		return tc.CloseWrite()
+	}
+	return c.Close()
+}
+
 func (c *recConn) Write(b []byte) (int, error) {
+	if atomic.LoadInt32(&c.cr.raw) == 1 {
+		return c.Conn.Write(b)
+	}
 	var pre []string
 	done := 0
 	p := b
@@ -292,6 +313,9 @@ func (c *recConn) Write(b []byte) (int, error) {
 		for i := 0; i < done; i++ {
 			c.h.add(fmt.Sprintf("w%d", c.cr.id))
 		}
+		if done > 0 && atomic.LoadInt32(&c.cr.isConn) == 1 {
+			atomic.StoreInt32(&c.cr.raw, 1)
+		}
 	} else if atomic.CompareAndSwapInt32(&c.cr.failed, 0, 1) {
 		c.h.add(fmt.Sprintf("F%d", c.cr.id))
 	}
@@ -321,6 +345,10 @@ func (h *run) gate(point, addr string) *connRec {
 		h.add("?" + point)
 		return nil
 	}
+	return h.gateCR(point, cr)
+}
+
+func (h *run) gateCR(point string, cr *connRec) *connRec {
 	var n *int
 	var tok string
 	switch point {
@@ -373,6 +401,11 @@ func (timeoutErr) Temporary() bool { return true }
 type reqMod struct{ h *run }
 
 func (m reqMod) ModifyRequest(req *http.Request) error {
+	if req.Method == "CONNECT" {
+		if cr := m.h.lookup(req.RemoteAddr); cr != nil {
+			atomic.StoreInt32(&cr.isConn, 1)
+		}
+	}
 	cr := m.h.gate("reqmod", req.RemoteAddr)
 	if cr.outcome('k') {
 		martian.NewContext(req).SkipRoundTrip()
@@ -388,7 +421,11 @@ type resMod struct{ h *run }
 func (m resMod) ModifyResponse(res *http.Response) error {
 	cr := m.h.gate("resmod", res.Request.RemoteAddr)
 	if cr != nil {
-		m.h.add(fmt.Sprintf("e%d", cr.id))
+		if res.Request.Method == "CONNECT" {
+			m.h.add(fmt.Sprintf("E%d", cr.id))
+		} else {
+			m.h.add(fmt.Sprintf("e%d", cr.id))
+		}
 	}
 	if cr.outcome('r') {
 		return errors.New("response modifier failed")
@@ -414,6 +451,88 @@ type origin struct {
 	l    net.Listener
 	srv  *http.Server
 	addr string
+}
+
+// startEcho: a TCP server that echoes what it reads (the target of a blind tunnel).
+func startEcho() (net.Listener, error) {
+	l, err := net.Listen("tcp", "127.0.0.1:0")
+	if err != nil {
+		return nil, err
+	}
+	go func() {
+		for {
+			c, err := l.Accept()
+			if err != nil {
+				return
+			}
+			go func() { io.Copy(c, c); c.Close() }()
+		}
+	}()
+	return l, nil
+}
+
+// startDownstream: a proxy that answers every CONNECT with 200 and then echoes.
+func startDownstream() (net.Listener, error) {
+	l, err := net.Listen("tcp", "127.0.0.1:0")
+	if err != nil {
+		return nil, err
+	}
+	go func() {
+		for {
+			c, err := l.Accept()
+			if err != nil {
+				return
+			}
+			go func() {
+				defer c.Close()
+				br := bufio.NewReader(c)
+				if _, err := http.ReadRequest(br); err != nil {
+					return
+				}
+				fmt.Fprint(c, "HTTP/1.1 200 Connection established\r\n\r\n")
+				io.Copy(c, br)
+			}()
+		}
+	}()
+	return l, nil
+}
+
+var (
+	mitmOnce sync.Once
+	mitmCfg  *mitm.Config
+)
+
+func mitmConfig() *mitm.Config {
+	mitmOnce.Do(func() {
+		ca, priv, err := mitm.NewAuthority("c07 harness", "verif", time.Hour)
+		if err == nil {
+			mitmCfg, _ = mitm.NewConfig(ca, priv)
+		}
+	})
+	return mitmCfg
+}
+
+// dialGate is installed with Proxy.SetDial: the dial of a tunnel target (or of the downstream
+// proxy) is the "round trip" step of a CONNECT exchange.
+func (h *run) dialGate(network, addr string) (net.Conn, error) {
+	h.mu.Lock()
+	cr := h.dialMap[addr]
+	h.mu.Unlock()
+	if cr == nil {
+		return net.DialTimeout(network, addr, 10*time.Second)
+	}
+	h.gateCR("rt", cr)
+	if cr.outcome('x') {
+		h.add(fmt.Sprintf("T%d-", cr.id))
+		return nil, errors.New("tunnel target refused the connection")
+	}
+	c, err := net.DialTimeout(network, addr, 10*time.Second)
+	if err != nil {
+		h.add(fmt.Sprintf("T%d?", cr.id))
+		return nil, err
+	}
+	h.add(fmt.Sprintf("T%d+", cr.id))
+	return c, nil
 }
 
 func startOrigin() (*origin, error) {
@@ -575,6 +694,14 @@ func (cl *client) sendKind(n int, kind byte) {
 	fmt.Fprintf(cl.c, "GET http://%s/b/%d %s\r\nHost: %s\r\n%s\r\n", cl.host, n, proto, cl.host, extra)
 }
 
+// sendConnect asks for a tunnel; want: -2 tunnel (ping must be echoed), -3 MITM (leave after the 200), -1 a 502.
+func (cl *client) sendConnect(target string, want int) {
+	cl.mu.Lock()
+	cl.sizes = append(cl.sizes, want)
+	cl.mu.Unlock()
+	fmt.Fprintf(cl.c, "CONNECT %s HTTP/1.1\r\nHost: %s\r\n\r\n", target, target)
+}
+
 // peekHead returns the raw response head the client received (lower-cased), without consuming it.
 func (cl *client) peekHead() string {
 	want := 1
@@ -716,9 +843,34 @@ func (cl *client) readOne(deadline time.Duration) (ok bool) {
 	// "marked connection-close" is read off the header bytes the client actually received
 	// (http.ReadResponse would report Close for every HTTP/1.0 response and strips the header)
 	marked := strings.Contains(cl.peekHead(), "\r\nconnection: close\r\n")
-	res, err := http.ReadResponse(cl.br, nil)
+	var inReq *http.Request
+	if want == -2 || want == -3 {
+		inReq = &http.Request{Method: "CONNECT"}
+	}
+	res, err := http.ReadResponse(cl.br, inReq)
 	code := byte('T')
-	if err == nil {
+	if err == nil && inReq != nil {
+		// the answer to a CONNECT: a 200 without a body; then the tunnel must carry bytes both ways
+		if res.StatusCode == 200 {
+			ok := true
+			if want == -2 {
+				ping := []byte("ping through the tunnel " + cl.local)
+				cl.c.SetDeadline(time.Now().Add(8 * time.Second))
+				cl.c.Write(ping)
+				back := make([]byte, len(ping))
+				if _, err := io.ReadFull(cl.br, back); err != nil || !bytes.Equal(back, ping) {
+					ok = false
+				}
+			}
+			if ok {
+				code = 'u'
+				if marked {
+					code = 'm'
+				}
+			}
+		}
+		cl.c.Close() // the client ends the tunnel
+	} else if err == nil {
 		b, err2 := io.ReadAll(res.Body)
 		res.Body.Close()
 		if err2 == nil && res.StatusCode == 200 && want >= 0 && bytes.Equal(b, bodyFor(want)) {
@@ -782,6 +934,16 @@ type env struct {
 	serve chan struct{}
 	orig  http.RoundTripper
 	orgs  []*origin
+	ls    []net.Listener // every listener served by the proxy (ls[0] == l)
+	addrs []string
+	aux   []net.Listener // echo targets, downstream proxy
+}
+
+type startOpts struct {
+	closeDelay time.Duration
+	listeners  int
+	downstream bool
+	mitm       bool
 }
 
 // originAddr starts real origin k on first use.
@@ -797,24 +959,53 @@ func (e *env) originAddr(k int) string {
 }
 
 func start(closeDelay time.Duration) (*env, error) {
-	l, err := net.Listen("tcp", "127.0.0.1:0")
-	if err != nil {
-		return nil, err
+	return startWith(startOpts{closeDelay: closeDelay, listeners: 1})
+}
+
+func startWith(o startOpts) (*env, error) {
+	if o.listeners < 1 {
+		o.listeners = 1
 	}
 	h := newRun()
-	h.closeDelay = closeDelay
+	h.closeDelay = o.closeDelay
 	p := martian.NewProxy()
+	p.SetDial(h.dialGate) // while the default transport is still installed: it dials through it too
 	orig := p.GetRoundTripper()
 	p.SetRoundTripper(upstream{h, orig})
 	p.SetRequestModifier(reqMod{h})
 	p.SetResponseModifier(resMod{h})
-	e := &env{h: h, p: p, l: l, addr: l.Addr().String(), serve: make(chan struct{}), orig: orig}
-	go func() {
-		p.Serve(&recListener{l, h})
-		close(e.serve)
-	}()
-	// Serve is inside l.Accept() before anything else happens
-	waitFor(5*time.Second, func() bool { return atomic.LoadInt32(&h.inAccept) > 0 })
+	e := &env{h: h, p: p, serve: make(chan struct{}), orig: orig}
+	if o.mitm {
+		if cfg := mitmConfig(); cfg != nil {
+			p.SetMITM(cfg)
+		}
+	}
+	if o.downstream {
+		d, err := startDownstream()
+		if err != nil {
+			return nil, err
+		}
+		e.aux = append(e.aux, d)
+		p.SetDownstreamProxy(&url.URL{Scheme: "http", Host: d.Addr().String()})
+	}
+	var swg sync.WaitGroup
+	for i := 0; i < o.listeners; i++ {
+		l, err := net.Listen("tcp", "127.0.0.1:0")
+		if err != nil {
+			return nil, err
+		}
+		e.ls = append(e.ls, l)
+		e.addrs = append(e.addrs, l.Addr().String())
+		swg.Add(1)
+		go func() {
+			defer swg.Done()
+			p.Serve(&recListener{l, h})
+		}()
+	}
+	e.l, e.addr = e.ls[0], e.addrs[0]
+	go func() { swg.Wait(); close(e.serve) }()
+	// every Serve loop is inside l.Accept() before anything else happens
+	waitFor(5*time.Second, func() bool { return int(atomic.LoadInt32(&h.inAccept)) >= o.listeners })
 	return e, nil
 }
 
@@ -836,10 +1027,19 @@ type spec struct {
 	warm  int
 	pipe  bool
 	coal  bool   // half of a next head coalesced behind the parked request
+	lis   int    // late connections: index of the listener they are dialled to
 	out   string // outcomes of the steps of the parked exchange
 	after byte   // head/headc: 's' silent, 'c' client closes, 'f' client finishes the head after Close returned
 	cl    *client
 	cr    *connRec
+}
+
+// ckind: t / d / m when the parked exchange is a CONNECT, else 0
+func (s *spec) ckind() byte {
+	if i := strings.IndexAny(s.out, "tdm"); i >= 0 {
+		return s.out[i]
+	}
+	return 0
 }
 
 // kind: the client kind letter of the parked exchange (0: HTTP/1.1 keep-alive)
@@ -914,9 +1114,9 @@ func parseForced(in []string) (sz int, specs []*spec, order []int, async bool, s
 			allowed := ""
 			switch pw[0] {
 			case "reqmod", "rt":
-				allowed = "qkxyzruvabnoe"
+				allowed = "qkxyzruvabnoetdm"
 			case "resmod":
-				allowed = "qkxyzrabnoe"
+				allowed = "qkxyzrabnoetdm"
 			case "write":
 				allowed = "qrgabe"
 			}
@@ -931,6 +1131,21 @@ func parseForced(in []string) (sz int, specs []*spec, order []int, async bool, s
 				ob = []byte(strings.NewReplacer("x", "", "y", "", "z", "").Replace(string(ob)))
 				if pw[0] == "rt" {
 					pw[0] = "reqmod"
+				}
+			}
+			if i := strings.IndexAny(string(ob), "tdm"); i >= 0 {
+				// a CONNECT exchange: only the dial failure and the modifier errors combine with it
+				kind := ob[i]
+				keep := []byte{kind}
+				for _, c := range ob {
+					if c == 'q' || c == 'r' || (c == 'x' && kind != 'm') {
+						keep = append(keep, c)
+					}
+				}
+				ob = keep
+				pipe, coal = false, false
+				if kind == 'm' && pw[0] == "rt" {
+					pw[0] = "reqmod" // no dial on the MITM path
 				}
 			}
 			if strings.ContainsAny(string(ob), "uv") {
@@ -968,6 +1183,13 @@ func parseForced(in []string) (sz int, specs []*spec, order []int, async bool, s
 		sz = 100
 	}
 	// normal connections first, then unreg (at most one, and then no late ones), then late
+	for _, s := range specs {
+		// lateb / latec / lated: a late connection on the 2nd / 3rd / 4th listener of the same proxy
+		if len(s.point) == 5 && strings.HasPrefix(s.point, "late") && s.point[4] >= 'b' && s.point[4] <= 'd' {
+			s.lis = int(s.point[4] - 'a')
+			s.point = "late"
+		}
+	}
 	rank := func(s *spec) int {
 		switch s.point {
 		case "unreg":
@@ -1003,7 +1225,19 @@ func (e *env) awaitAccept(cl *client, d time.Duration) *connRec {
 
 func runForced(in []string) (out []string) {
 	sz, specs, order, async, sc := parseForced(in)
-	e, err := start(sc)
+	opts := startOpts{closeDelay: sc, listeners: 1}
+	for _, s := range specs {
+		if s.lis+1 > opts.listeners {
+			opts.listeners = s.lis + 1
+		}
+		switch s.ckind() {
+		case 'd':
+			opts.downstream = true
+		case 'm':
+			opts.mitm = true
+		}
+	}
+	e, err := startWith(opts)
 	if err != nil {
 		return []string{"ENVFAIL"}
 	}
@@ -1083,7 +1317,32 @@ func runForced(in []string) (out []string) {
 			time.Sleep(2 * time.Millisecond)
 			h.add(fmt.Sprintf("h%d", s.cr.id))
 		case "reqmod", "rt", "resmod":
-			if strings.ContainsAny(s.out, "uv") {
+			if ck := s.ckind(); ck != 0 {
+				target := "127.0.0.1:9" // MITM: never dialled
+				if ck != 'm' {
+					el, err := startEcho()
+					if err != nil {
+						return []string{"ENVFAIL"}
+					}
+					e.aux = append(e.aux, el)
+					target = el.Addr().String()
+				}
+				h.mu.Lock()
+				if ck == 'd' {
+					h.dialMap[e.aux[0].Addr().String()] = s.cr // the downstream proxy is dialled instead
+				} else {
+					h.dialMap[target] = s.cr
+				}
+				h.mu.Unlock()
+				want := -2
+				if ck == 'm' {
+					want = -3
+				}
+				if strings.Contains(s.out, "x") {
+					want = -1
+				}
+				cl.sendConnect(target, want)
+			} else if strings.ContainsAny(s.out, "uv") {
 				cl.sendUpload(s.upTotal(sz), strings.Contains(s.out, "v"))
 			} else if s.coal {
 				cl.sendThenHalf(sz)
@@ -1092,7 +1351,9 @@ func runForced(in []string) (out []string) {
 			} else {
 				cl.sendKind(sz, s.kind())
 			}
-			if strings.ContainsAny(s.out, "xyz") {
+			if s.ckind() != 0 {
+				// expectation set by sendConnect
+			} else if strings.ContainsAny(s.out, "xyz") {
 				cl.setExpect(s.warm, -1)
 			} else if strings.Contains(s.out, "k") {
 				cl.setExpect(s.warm, 0)
@@ -1151,7 +1412,7 @@ func runForced(in []string) (out []string) {
 		if s.point != "late" {
 			continue
 		}
-		cl, err := dial(e.addr)
+		cl, err := dial(e.addrs[s.lis])
 		if err != nil {
 			continue // listener already closed by Serve: refused, never accepted
 		}
@@ -1281,7 +1542,12 @@ func (e *env) finish(all []*client, flags []string) []string {
 		return true
 	})
 	time.Sleep(20 * time.Millisecond)
-	e.l.Close()
+	for _, l := range e.ls {
+		l.Close()
+	}
+	for _, l := range e.aux {
+		l.Close()
+	}
 	if tr, ok := e.orig.(*http.Transport); ok {
 		tr.CloseIdleConnections()
 	}
@@ -1320,7 +1586,7 @@ func (e *env) finish(all []*client, flags []string) []string {
 
 // stress: k clients race accept/serve against Close, nothing is forced.
 func runStress(in []string) []string {
-	k, sd, slow, scms, realOrigin := 3, uint64(1), false, 0, false
+	k, sd, slow, scms, realOrigin, nls := 3, uint64(1), false, 0, false, 1
 	for _, t := range in[1:] {
 		switch {
 		case strings.HasPrefix(t, "n:"):
@@ -1331,6 +1597,8 @@ func runStress(in []string) []string {
 			slow = true
 		case t == "org":
 			realOrigin = true
+		case strings.HasPrefix(t, "ls:"):
+			nls, _ = strconv.Atoi(t[3:])
 		case strings.HasPrefix(t, "sc:"):
 			scms, _ = strconv.Atoi(t[3:])
 		}
@@ -1344,7 +1612,10 @@ func runStress(in []string) []string {
 	if scms < 0 || scms > 2000 {
 		scms = 0
 	}
-	e, err := start(time.Duration(scms) * time.Millisecond)
+	if nls < 1 || nls > 4 {
+		nls = 1
+	}
+	e, err := startWith(startOpts{closeDelay: time.Duration(scms) * time.Millisecond, listeners: nls})
 	if err != nil {
 		return []string{"ENVFAIL"}
 	}
@@ -1368,7 +1639,7 @@ func runStress(in []string) []string {
 			defer wg.Done()
 			<-startc
 			time.Sleep(time.Duration(r.Intn(1500)) * time.Microsecond)
-			cl, err := dial(e.addr)
+			cl, err := dial(e.addrs[r.Intn(len(e.addrs))])
 			if err != nil {
 				return
 			}
@@ -1801,6 +2072,43 @@ func main() {
 			n++
 			jobs = append(jobs, job{fmt.Sprintf("f%d", n), in})
 		}
+		// several connections arriving after shutdown began, on one and on several listeners of the same proxy
+		for _, in := range [][]string{
+			{"late", "lateb"}, {"late", "lateb", "latec", "lated"}, {"late", "late", "lateb"},
+			{"reqmod.0", "late", "lateb"}, {"idle.1", "late", "lateb", "latec"}, {"write.1", "lateb", "late"},
+			{"resmod.0/a", "late", "lateb", "latec", "lated"}, {"head.1", "rt.0", "lateb", "late"},
+		} {
+			n++
+			cfg.Count("late-multi")
+			jobs = append(jobs, job{fmt.Sprintf("f%d", n), append([]string{"F", "sz:100"}, in...)})
+		}
+		// the in-flight exchange is a CONNECT: blind tunnel, through a downstream proxy, with MITM
+		for _, ck := range []string{"t", "d", "m"} {
+			for _, pt := range []string{"reqmod", "rt", "resmod"} {
+				if ck == "m" && pt == "rt" {
+					continue
+				}
+				for w := 0; w <= 1; w++ {
+					in := []string{"F", "sz:100", fmt.Sprintf("%s.%d/%s", pt, w, ck)}
+					if rng.Chance(1, 4) {
+						in = append(in, "sc:40")
+					}
+					n++
+					cfg.Count("connect=" + ck)
+					cfg.Count("point=" + pt)
+					jobs = append(jobs, job{fmt.Sprintf("f%d", n), in})
+				}
+			}
+		}
+		for _, in := range [][]string{
+			{"rt.0/tx"}, {"reqmod.1/tx"}, {"rt.1/dx"}, {"reqmod.0/tq"}, {"resmod.1/tr"}, {"reqmod.0/mq"}, {"resmod.0/mr"},
+			{"reqmod.0/t", "rt.1/t", "R:1,0"}, {"reqmod.1/t", "reqmod.0", "resmod.0/t", "async"},
+			{"rt.0/t", "write.1", "late"}, {"reqmod.0/m", "reqmod.1/m", "async"}, {"reqmod.0/d", "idle.1", "head.0"},
+		} {
+			n++
+			cfg.Count("connect-mix")
+			jobs = append(jobs, job{fmt.Sprintf("f%d", n), append([]string{"F", "sz:100"}, in...)})
+		}
 		// client protocol version and connection preference at every placement of the shutdown
 		for _, pt := range []string{"reqmod", "rt", "resmod"} {
 			for _, oc := range []string{"n", "o", "e"} {
@@ -1888,6 +2196,11 @@ func main() {
 			}
 			if i%4 == 2 {
 				in = append(in, "org")
+			}
+			if i%5 == 3 {
+				// a burst on two listeners served by the same proxy
+				in[1] = "n:8"
+				in = append(in, "ls:2")
 			}
 			cfg.Count("kind=stress")
 			jobs = append(jobs, job{fmt.Sprintf("s%d", i+1), in})
